@@ -112,7 +112,7 @@ def ll(x):
     return -0.5 * float(np.sum(x ** 2))
 
 
-def run_once(random_state, pre_seed, cfg):
+def run_once(random_state, pre_seed, cfg, save_dir=None):
     from tempest import Sampler
     calls = []
     orig = np.random.seed
@@ -124,8 +124,9 @@ def run_once(random_state, pre_seed, cfg):
     np.random.seed = rec
     try:
         orig(pre_seed)
-        s = Sampler(pt, ll, n_dim=2, n_particles=12, random_state=random_state, **cfg)
-        s.run(n_total=40, progress=False)
+        extra = dict(output_dir=str(save_dir), output_label="c09") if save_dir is not None else {}
+        s = Sampler(pt, ll, n_dim=2, n_particles=12, random_state=random_state, **cfg, **extra)
+        s.run(n_total=40, progress=False, save_every=1 if save_dir is not None else None)
     finally:
         np.random.seed = orig
     h = s.state
@@ -137,7 +138,8 @@ def run_once(random_state, pre_seed, cfg):
     probes = {}
     for name, op in (("posterior(resample=True)", lambda: s.posterior(resample=True)),
                      ("posterior()", lambda: s.posterior()), ("results()", lambda: s.results()),
-                     ("evidence()", lambda: s.evidence())):
+                     ("evidence()", lambda: s.evidence())) + \
+            ((("save_state()", lambda: s.save_state(str(save_dir) + "/probe.state")),) if save_dir is not None else ()):
         nxt = []
         for pre in (31, 32):
             np.random.seed(pre)
@@ -176,6 +178,28 @@ def sweep(run, tier, rng):
             elif nxt[0][0] == nxt[1][0]:
                 run.fail("stream-after-operation-independent-of-prior-seed",
                          f"after {name} the next global draw is the same whatever the seed in force before", **what)
+        if ci < 2:
+            # writing checkpoints is not an event of the random stream: same trace, same run, bit for bit
+            import tempfile
+            try:
+                d = run_once(rs, 111, cfg, save_dir=tempfile.mkdtemp(prefix="c09_", dir=run.scratch.dir))
+            except Exception as e:
+                run.fail("run-raises", f"seeded run with save_every=1 raised {type(e).__name__}: {e}", **what)
+                d = None
+            if d is not None:
+                run.case(key=("repro-with-checkpoints", ci), nontrivial=True)
+                if d[2] != a[2]:
+                    run.disagree("seeding trace of a checkpointing run vs the same run without checkpoints", impl=d[2], model=a[2], **what)
+                    run.fail("library-reseeds-global-stream", f"a run with save_every=1 called np.random.seed with {d[2]} (without checkpoints: {a[2]})", **what)
+                if d[0] != a[0]:
+                    run.fail("checkpointing-changes-the-run", f"random_state={rs}: the run with save_every=1 differs from the run without checkpoints "
+                             f"(evidence {d[0][2]!r} vs {a[0][2]!r})", **what)
+                for name, nxt in d[4].items():
+                    if nxt[0][1] or nxt[1][1]:
+                        run.fail("library-reseeds-global-stream", f"{name} called np.random.seed with {nxt[0][1] or nxt[1][1]}", **what)
+                    elif nxt[0][0] == nxt[1][0]:
+                        run.fail("stream-after-operation-independent-of-prior-seed",
+                                 f"after {name} the next global draw is the same whatever the seed in force before", **what)
         if a[0] == c[0]:
             run.fail("different-seeds-same-result", f"random_state={rs} and {rs + 1} give identical histories", **what)
         # trace: the only seeding call of a fresh seeded run is seed(random_state)
